@@ -99,6 +99,9 @@ def run(ses):
             jobs += [(job_entry, (p, f, a, ck)) for f, a in vs]
         jobs += [(job_keyhex, (n, ck)) for n in KEY_SIZES]
     jobs += upper.panic_jobs(ses.tier)
+    if ses.tier == 'thorough':
+        from .. import kani
+        jobs.append((kani.job_key_hex, ()))
     run_jobs(ses, jobs)
     ses.trusted_base = TRUSTED
     ses.assumptions = ['token text, footer, assertion: arbitrary strings shorter than 2^40 bytes; key objects have the length their type guarantees']
